@@ -68,7 +68,15 @@ def build_app(kind, size):
             def on_get(self, req, resp, **kw):
                 if kw.get('code') == 1:
                     raise AppError('boom')
+                if kw.get('code') == 3:
+                    raise falcon.HTTPTooManyRequests(title='slow down', retry_after=30)
                 raise falcon.HTTPNotFound(title='nope %s' % (kw.get('code'),), description=req.get_header('X-Rid'))
+
+        class Widget:
+            def on_get(self, req, resp, wid):
+                # a status line with an application-chosen reason phrase that names the request's own parameter
+                resp.status = '404 No Widget %s' % wid
+                resp.media = {'widget': wid}
 
         class MW:
             def process_request(self, req, resp):
@@ -112,7 +120,14 @@ def build_app(kind, size):
             async def on_get(self, req, resp, **kw):
                 if kw.get('code') == 1:
                     raise AppError('boom')
+                if kw.get('code') == 3:
+                    raise falcon.HTTPTooManyRequests(title='slow down', retry_after=30)
                 raise falcon.HTTPNotFound(title='nope %s' % (kw.get('code'),), description=req.get_header('X-Rid'))
+
+        class Widget:
+            async def on_get(self, req, resp, wid):
+                resp.status = '404 No Widget %s' % wid
+                resp.media = {'widget': wid}
 
         class MW:
             async def process_request(self, req, resp):
@@ -145,6 +160,7 @@ def build_app(kind, size):
         app.add_route('/c/{p}-{q}', Echo('c'))
         app.add_route('/a/{x}/d/{z:int(2)}', Echo('d'))
         app.add_route('/e/{code:int}', Err())
+        app.add_route('/w/{wid}', Widget())
         app.add_error_handler(AppError, handle)
     return app
 
@@ -173,12 +189,18 @@ REQS = {
     'o': dict(method='OPTIONS', raw_path='/a/1', query='', headers=[('X-Rid', 'r-o')]),
     'm': dict(method='DELETE', raw_path='/b/3', query='', headers=[('X-Rid', 'r-m')]),
     'nf': dict(method='GET', raw_path='/nope', query='', headers=[('X-Rid', 'r-nf')]),
+    # errors that carry their own headers (Allow of two different routes, Retry-After)
+    'm2': dict(method='DELETE', raw_path='/e/5', query='', headers=[('X-Rid', 'r-m2')]),
+    'e3': dict(method='GET', raw_path='/e/3', query='', headers=[('X-Rid', 'r-e3')]),
+    # same status code, request-specific reason phrases
+    'w1': dict(method='GET', raw_path='/w/17', query='', headers=[('X-Rid', 'r-w1')]),
+    'w2': dict(method='GET', raw_path='/w/99', query='', headers=[('X-Rid', 'r-w2')]),
 }
 
 
 def obs_of(res):
     return (res.code, tuple(res.header_multi()), res.body, repr(res.exc) if res.exc is not None else None,
-            tuple(res.problems))
+            tuple(res.problems), res.status)
 
 
 def wsgi_req(app, name):
@@ -496,18 +518,19 @@ def plan(tier, seed):
                     # one preemption at ANY line of the framework, on a warm router: requests using different media types,
                     # Accept headers, error paths (shared resolver / negotiation caches, per-request objects)
                     ('full', ('p1', 'f1'), 'all', 1), ('full', ('e2', 'b2'), 'all', 1), ('full', ('pq', 'a1'), 'all', 1),
-                    ('full', ('u1', 'u2'), 'all', 1)]
+                    ('full', ('u1', 'u2'), 'all', 1), ('full', ('m', 'm2'), 'all', 1), ('full', ('w1', 'w2'), 'all', 1)]
         aio_cfgs = [('full', ('a1', 'b2'), False), ('full', ('p1', 'p2'), False), ('full', ('p1', 'e1'), True), ('full', ('c', 'e2'), False),
                     # dependent middleware mode: a request rejected half-way down the stack while another is parked at an await
                     ('dep', ('p1', 'deny'), True), ('dep', ('deny', 'p2'), True)]
-        names = ['a1', 'b2', 'c', 'e1', 'e2', 'p1', 'pq', 'nf']
+        names = ['a1', 'b2', 'c', 'e1', 'e2', 'p1', 'pq', 'nf', 'm', 'm2', 'e3', 'w1', 'w2']
         perm_k = 3
     else:
         thr_cfgs = [('small', ('a1', 'b2'), 'router', 3), ('small', ('a1', 'b2', 'nf'), 'router', 2), ('full', ('c', 'd'), 'router', 2),
                     ('full', ('a1', 'e1'), 'router', 2), ('small', ('a1', 'b2'), 'app', 2), ('full', ('p1', 'b2'), 'app', 1),
                     ('full', ('p1', 'f1'), 'all', 1), ('full', ('e2', 'b2'), 'all', 1), ('full', ('f1', 'p2'), 'all', 1),
                     ('full', ('a1', 'p1', 'f1'), 'all', 1), ('full', ('o', 'm'), 'all', 1), ('full', ('u1', 'u2'), 'all', 1),
-                    ('full', ('pq', 'a1'), 'all', 1), ('full', ('u1', 'u2'), 'all', 2)]
+                    ('full', ('pq', 'a1'), 'all', 1), ('full', ('m', 'm2'), 'all', 1), ('full', ('w1', 'w2'), 'all', 1),
+                    ('full', ('e3', 'm'), 'all', 1), ('full', ('w1', 'nf'), 'all', 1), ('full', ('u1', 'u2'), 'all', 2)]
         aio_cfgs = [('full', ('a1', 'b2'), False), ('full', ('p1', 'p2'), True), ('full', ('p1', 'e1'), True), ('full', ('c', 'e2'), False),
                     ('full', ('a1', 'p1', 'e2'), False), ('full', ('p1', 'p2', 'nf'), False),
                     ('dep', ('p1', 'deny'), True), ('dep', ('deny', 'p2'), True), ('dep', ('p1', 'deny', 'a1'), True)]
